@@ -148,6 +148,7 @@ func runC16(c *Ctx) {
 	c16ThresholdsPositive(c)
 	c16ActiveFlagOwner(c)
 	c16SessionLifetime(c)
+	c16ChangedReachesCallbacks(c)
 	c16EveryCheckTimed(c)
 }
 
@@ -1089,5 +1090,84 @@ func c16SessionLifetime(c *Ctx) {
 	}
 	if n < 4 {
 		c.Unresolved("C16.R3", fmt.Sprintf("stopCheck/startCheck call sites (found %d)", n))
+	}
+}
+
+// c16ChangedReachesCallbacks (R3): the transition the threshold automaton computed is what the callbacks are told.
+// HandleSuccess/HandleFailure compute `changed` together with the flag flip (R3 automaton). From there the value travels
+// sessionChecker -> healthChecker.incHealthy/decHealthy -> runCallbacks -> every registered callback, and the healthy gauge
+// moves under the same condition. Clause: in incHealthy, decHealthy and runCallbacks the `changed` parameter is handed on
+// as it is - the argument of runCallbacks / of the callback is the parameter itself, and the gauge update is guarded by the
+// parameter itself. A `changed` masked by another condition of the host (outlier ejection, a config switch) hides a
+// threshold transition from the cluster: nobody re-announces it later.
+func c16ChangedReachesCallbacks(c *Ctx) {
+	pkg := "pkg/upstream/healthcheck"
+	n := 0
+	for _, spec := range []struct {
+		fn, next string
+	}{{"incHealthy", "runCallbacks"}, {"decHealthy", "runCallbacks"}, {"runCallbacks", ""}} {
+		fn := c.M(pkg, "healthChecker", spec.fn)
+		if fn == nil {
+			c.Unresolved("C16.R3", "healthChecker."+spec.fn)
+			continue
+		}
+		var ch *ssa.Parameter
+		for _, p := range fn.Params {
+			if p.Name() == "changed" {
+				ch = p
+			}
+		}
+		if ch == nil {
+			c.Unresolved("C16.R3", "the changed parameter of healthChecker."+spec.fn)
+			continue
+		}
+		fk := funcKey(fn)
+		// every call that receives a bool "changed" downstream: the static callee named next, or a dynamic callback call
+		ok, calls := true, 0
+		forEachInstr(fn, true, func(_ *ssa.Function, in ssa.Instruction) {
+			call, isCall := in.(*ssa.Call)
+			if !isCall {
+				return
+			}
+			isNext := spec.next != "" && methodName(call.Common()) == spec.next
+			isCb := spec.next == "" && call.Common().StaticCallee() == nil && !call.Common().IsInvoke() && len(call.Common().Args) == 3
+			if !isNext && !isCb {
+				return
+			}
+			calls++
+			// the bool argument in the "changed" position (second of host, changed, isHealthy)
+			args := argsOf(call.Common())
+			if len(args) < 3 || args[len(args)-2] != ssa.Value(ch) {
+				ok = false
+			}
+		})
+		n++
+		c.Check("C16.R3", fk+":changed-handed-on-as-it-is", fn.Pos(), ok && calls > 0, "the changed parameter itself is passed on", "healthChecker."+spec.fn+" does not hand the `changed` value of the threshold automaton on as it is: a transition of the active-check condition is hidden from (or invented for) the callbacks - the cluster's view of the host and the healthy gauge no longer follow the configured thresholds")
+		if spec.next != "" {
+			// the gauge moves exactly when changed
+			guarded := true
+			found := 0
+			forEachInstr(fn, false, func(_ *ssa.Function, in ssa.Instruction) {
+				call, isCall := in.(*ssa.Call)
+				if !isCall || !strings.HasSuffix(calleeName(call.Common()), "atomic.AddInt64") {
+					return
+				}
+				found++
+				g := false
+				for _, gd := range guardsAt(call.Block()) {
+					if gd.Cond == ssa.Value(ch) && gd.True {
+						g = true
+					}
+				}
+				if !g {
+					guarded = false
+				}
+			})
+			n++
+			c.Check("C16.R3", fk+":gauge-moves-with-changed", fn.Pos(), guarded && found == 1, "the healthy gauge is updated exactly under `changed`", "the healthy-host gauge of healthChecker."+spec.fn+" is not updated under the `changed` value of the automaton itself")
+		}
+	}
+	if n < 5 {
+		c.Unresolved("C16.R3", fmt.Sprintf("the changed hand-over chain (found %d obligations)", n))
 	}
 }
